@@ -55,9 +55,10 @@ Example directory_has_no_content :
   snd (read_path c3 (after hdir) (s "/a")) = Ok [].
 Proof. vm_compute. split; reflexivity. Qed.
 
-(* (5) the corner of T02Counter.v (2) - CreateFile on an existing regular file - concerns the modification time
-       column only: the contents are right (no hypothesis of T04 excludes the call; [cfg_rs] has uid 7, gid 8, and
-       since the flush keeps the owner of the entry no theorem of T02 has a hypothesis on the identity either).  The
+(* (5) CreateFile on an existing regular file (T02Counter.v (2); the corner that remains there, nothing written to an
+       empty file, concerns the modification time column only): the contents are right (no hypothesis of T04 excludes
+       the call; [cfg_rs] has uid 7, gid 8, and since the flush keeps the owner of the entry and stamps the
+       modification time no theorem of T02 has a hypothesis on the identity or excludes this call either).  The
        overwritten file reads the new content, the position moved to the new record, and the old record is still on
        the tape at its old position. *)
 Definition hover : list (call * env) := hfile ++ [(CCreateFile (s "/f") [(2, 0, 700)], eh [] 3)].
